@@ -122,6 +122,9 @@ func cTime(c string, rng *rand.Rand) time.Time {
 		return base.In(time.FixedZone("", -(9*3600 + 30*60))).Add(999999999 * time.Nanosecond)
 	case "zero-off-named":
 		return base.In(time.FixedZone("GMT", 0))
+	case "west-secoff":
+		// a zone west of Greenwich whose offset is not a whole number of minutes (local mean times)
+		return base.In(time.FixedZone("LMT", -(4*3600 + 56*60 + 2)))
 	case "secoff":
 		return base.In(time.FixedZone("LMT", 5*3600+53*60+28))
 	case "mono":
